@@ -1483,6 +1483,32 @@ struct PrimitiveVecAccess<'de> {
 }
 
 #[cfg(target_endian = "little")]
+/// One element of a primitive vector, as a deserializer. Serde's own value deserializers answer every request with the
+/// primitive itself, which a derived newtype struct around the primitive (`struct Millis(u64)`) cannot take: it asks for
+/// a newtype struct and expects to be handed a deserializer for the inner value, as the generic path does.
+struct PrimitiveElement<D>(D);
+
+impl<'de, D> de::Deserializer<'de> for PrimitiveElement<D>
+where
+    D: de::Deserializer<'de, Error = Error>,
+{
+    type Error = Error;
+    fn deserialize_any<V: Visitor<'de>>(self, visitor: V) -> Result<V::Value> {
+        self.0.deserialize_any(visitor)
+    }
+    fn deserialize_newtype_struct<V: Visitor<'de>>(
+        self,
+        _name: &'static str,
+        visitor: V,
+    ) -> Result<V::Value> {
+        visitor.visit_newtype_struct(self)
+    }
+    serde::forward_to_deserialize_any! {
+        bool i8 i16 i32 i64 i128 u8 u16 u32 u64 u128 f32 f64 char str string bytes byte_buf option unit
+        unit_struct seq tuple tuple_struct map struct enum identifier ignored_any
+    }
+}
+
 impl<'de> de::SeqAccess<'de> for PrimitiveVecAccess<'de> {
     type Error = Error;
 
@@ -1500,45 +1526,45 @@ impl<'de> de::SeqAccess<'de> for PrimitiveVecAccess<'de> {
 
         match self.prim {
             PrimitiveType::Bool => match bytes[0] {
-                0 => seed.deserialize(false.into_deserializer()).map(Some),
-                1 => seed.deserialize(true.into_deserializer()).map(Some),
+                0 => seed.deserialize(PrimitiveElement(false.into_deserializer())).map(Some),
+                1 => seed.deserialize(PrimitiveElement(true.into_deserializer())).map(Some),
                 _ => Err(Error::msg("Expect 00 or 01")),
             },
-            PrimitiveType::Nat8 => seed.deserialize(bytes[0].into_deserializer()).map(Some),
+            PrimitiveType::Nat8 => seed.deserialize(PrimitiveElement(bytes[0].into_deserializer())).map(Some),
             PrimitiveType::Int8 => seed
-                .deserialize((bytes[0] as i8).into_deserializer())
+                .deserialize(PrimitiveElement((bytes[0] as i8).into_deserializer()))
                 .map(Some),
             PrimitiveType::Nat16 => {
                 let v = u16::from_le_bytes(bytes.try_into().unwrap());
-                seed.deserialize(v.into_deserializer()).map(Some)
+                seed.deserialize(PrimitiveElement(v.into_deserializer())).map(Some)
             }
             PrimitiveType::Int16 => {
                 let v = i16::from_le_bytes(bytes.try_into().unwrap());
-                seed.deserialize(v.into_deserializer()).map(Some)
+                seed.deserialize(PrimitiveElement(v.into_deserializer())).map(Some)
             }
             PrimitiveType::Nat32 => {
                 let v = u32::from_le_bytes(bytes.try_into().unwrap());
-                seed.deserialize(v.into_deserializer()).map(Some)
+                seed.deserialize(PrimitiveElement(v.into_deserializer())).map(Some)
             }
             PrimitiveType::Int32 => {
                 let v = i32::from_le_bytes(bytes.try_into().unwrap());
-                seed.deserialize(v.into_deserializer()).map(Some)
+                seed.deserialize(PrimitiveElement(v.into_deserializer())).map(Some)
             }
             PrimitiveType::Float32 => {
                 let v = f32::from_le_bytes(bytes.try_into().unwrap());
-                seed.deserialize(v.into_deserializer()).map(Some)
+                seed.deserialize(PrimitiveElement(v.into_deserializer())).map(Some)
             }
             PrimitiveType::Nat64 => {
                 let v = u64::from_le_bytes(bytes.try_into().unwrap());
-                seed.deserialize(v.into_deserializer()).map(Some)
+                seed.deserialize(PrimitiveElement(v.into_deserializer())).map(Some)
             }
             PrimitiveType::Int64 => {
                 let v = i64::from_le_bytes(bytes.try_into().unwrap());
-                seed.deserialize(v.into_deserializer()).map(Some)
+                seed.deserialize(PrimitiveElement(v.into_deserializer())).map(Some)
             }
             PrimitiveType::Float64 => {
                 let v = f64::from_le_bytes(bytes.try_into().unwrap());
-                seed.deserialize(v.into_deserializer()).map(Some)
+                seed.deserialize(PrimitiveElement(v.into_deserializer())).map(Some)
             }
         }
     }
